@@ -1381,12 +1381,16 @@ impl<'a> Gen<'a> {
             let nm = if self.rng.chance(1, 2) { "T" } else { "U" };
             s.push_str(&format!("fn early{}() -> int {{\n  struct {} {{ a: int }}\n  let e = {} {{ a: 1 }}\n  return e.a\n}}\n", self.fresh, nm, nm));
         }
+        let nested_only = self.rng.chance(1, 6);
+        if nested_only {
+            self.st.hit("only-nested-generic-functions");
+        }
         let with_global = self.rng.chance(1, 5);
         if with_global {
             s.push_str("let gk = 5\n");
         }
         s.push_str("fn add2(a: int, b: int) -> int { return a + b }\n");
-        if self.rng.chance(1, 12) {
+        if !nested_only && self.rng.chance(1, 12) {
             // type parameters spelled like builtin types
             self.st.hit("type-param-named-like-builtin");
             let g = self.name("gb");
@@ -1396,8 +1400,10 @@ impl<'a> Gen<'a> {
             self.st.hit("unknown-struct-literal");
             s.push_str(&format!("fn unk{}() -> int {{\n  let u = Nowhere {{ a: 1 }}\n  return 1\n}}\n", self.fresh));
         }
+        // some programs have no top-level generic function at all: their only generic functions are
+        // declared inside function bodies (directly, in a block, two deep, in a lambda)
         // generic helpers
-        let ng = self.rng.below(5);
+        let ng = if nested_only { 0 } else { self.rng.below(5) };
         for _ in 0..ng {
             let g = self.name("g");
             let kind = 1 + self.rng.below(7) as u8;
@@ -1493,7 +1499,7 @@ impl<'a> Gen<'a> {
             fnames.push(f);
             self.st.hit("plain-fn");
         }
-        if self.rng.chance(1, 2) {
+        if !nested_only && self.rng.chance(1, 2) {
             // typed data flowing into generic calls through (a) an annotated let whose initializer is the
             // (dynamically typed) result of a generic call, (b) a lambda capturing a variable initialised
             // from a call: the types recorded by type inference for the let / the capture decide which
@@ -1528,6 +1534,28 @@ impl<'a> Gen<'a> {
             b.push_str(&format!("  return first{}(kept)\n}}\n", k));
             s.push_str(&b);
         }
+        if nested_only {
+            let k = self.fresh;
+            self.fresh += 1;
+            let body = match self.rng.below(4) {
+                0 => format!("  fn pick{}<T>(x: T) -> T {{\n    return x\n  }}\n  let s = pick{}(\"a\")\n  return pick{}(7)\n", k, k, k),
+                1 => format!("  {{\n    fn pick{}<T>(x: T) -> T {{\n      return x\n    }}\n    print(pick{}(1.5))\n    print(pick{}(true))\n  }}\n  return 1\n", k, k, k),
+                2 => format!("  fn mid{}() -> int {{\n    fn pick{}<T, U>(x: T, y: U) -> T {{\n      return x\n    }}\n    let s = pick{}(\"a\", 1)\n    return pick{}(3, \"b\")\n  }}\n  return mid{}()\n", k, k, k, k, k),
+                _ => format!("  let l = fn() -> int {{\n    fn pick{}<T>(xs: Vec<T>, x: T) -> T {{\n      return x\n    }}\n    let s = pick{}(Vec[\"a\"], \"b\")\n    return pick{}(Vec[1], 4)\n  }}\n  return l()\n", k, k, k),
+            };
+            s.push_str(&format!("fn outer{}() -> int {{\n{}}}\n", k, body));
+        }
+        if self.rng.chance(1, 10) {
+            // a struct literal whose name is not a struct but is bound as a function / a variable
+            self.st.hit("struct-literal-named-like-binding");
+            let k = self.fresh;
+            self.fresh += 1;
+            if self.rng.chance(1, 2) {
+                s.push_str(&format!("fn Pair{}(a: int, b: int) -> int {{\n  return a * 100 + b\n}}\nfn usepair{}() -> int {{\n  let p = Pair{} {{ a: 1, b: 2 }}\n  return 3\n}}\n", k, k, k));
+            } else {
+                s.push_str(&format!("let Origin{} = 0\nfn useorigin{}() -> int {{\n  let o = Origin{} {{ x: 1 }}\n  return 3\n}}\n", k, k, k));
+            }
+        }
         if self.rng.chance(1, 8) {
             // a struct declared inside a top-level statement, used by a later function
             self.st.hit("struct-in-toplevel-statement");
@@ -1542,7 +1570,7 @@ impl<'a> Gen<'a> {
             self.fresh += 1;
             s.push_str(&format!("fn deadd{}() -> int {{\n  return 1\n  struct Late{} {{ x: int }}\n}}\nfn uselate{}() -> int {{\n  let t = Late{} {{ x: 2 }}\n  return t.x\n}}\n", k, k, k, k));
         }
-        if self.rng.chance(1, 12) {
+        if !nested_only && self.rng.chance(1, 12) {
             // a type parameter that occurs in no parameter type cannot be inferred at a call
             self.st.hit("type-param-not-in-parameters");
             let k = self.fresh;
@@ -1887,6 +1915,44 @@ fn run_case(case: &str, code: &str, modes: &[&str], st: &mut Stats) {
             let src_id = post.mono_instances.iter().find(|i| i.result.0 == f.fn_id).map(|i| i.original.0).unwrap_or(f.fn_id);
             let ix = idx_of(src_id).map(|i| i as i64).unwrap_or(-1);
             println!("V\t{}\t{}\tpost\t{}\t{}\t{}\t{}", case, mode, ix, esc(&f.fn_name), f.kind, esc(&f.detail));
+        }
+        // the same typed program through the driver's pipeline stage (what `run` / the standard pipeline use):
+        // same oracle on its output, and the output must equal the library path's
+        {
+            use aelys_driver::pipeline::stages::AirLowerStage;
+            use aelys_driver::pipeline::{Stage, StageInput, StageOutput};
+            let tp3 = tp.clone();
+            let staged = guarded(std::panic::AssertUnwindSafe(move || {
+                let src = tp3.source.clone();
+                let mut stage = AirLowerStage;
+                stage.execute(StageInput::TypedAst(tp3, src))
+            }));
+            match staged {
+                Ok(Ok(StageOutput::Air(sp, _, _))) => {
+                    let mut fs2 = Vec::new();
+                    validate::structural(&sp, &tp_names, &generic_ids, &declared_structs, &toplevel_nested, &declared_before_opt, &mut fs2);
+                    validate::after_mono(&pre, &sp, &tp_names, &uninferable, &mut fs2);
+                    for f in &fs2 {
+                        let src_id = sp.mono_instances.iter().find(|i| i.result.0 == f.fn_id).map(|i| i.original.0).unwrap_or(f.fn_id);
+                        let ix = idx_of(src_id).map(|i| i as i64).unwrap_or(-1);
+                        println!("V\t{}\t{}\tstage\t{}\t{}\t{}\t{}", case, mode, ix, esc(&f.fn_name), f.kind, esc(&f.detail));
+                    }
+                    let a = mono_case(&pre, &post).1;
+                    let b = mono_case(&pre, &sp).1;
+                    let rows_a: Vec<String> = post.functions.iter().map(|f| rows_term(&canon_fn(f).0)).collect();
+                    let rows_b: Vec<String> = sp.functions.iter().map(|f| rows_term(&canon_fn(f).0)).collect();
+                    if a != b || rows_a != rows_b || post.structs.len() != sp.structs.len() {
+                        println!("PD\t{}\t{}\t{}\t{}", case, mode, esc(&a), esc(&b));
+                    }
+                    st.hit("pipeline-stage-outputs-compared");
+                }
+                Ok(Ok(_)) => println!("PD\t{}\t{}\tstage returned no AIR\t-", case, mode),
+                Ok(Err(e)) => {
+                    let msg = format!("{}", e);
+                    println!("PD\t{}\t{}\tstage error: {}\t-", case, mode, esc(&msg))
+                }
+                Err(m) => println!("PANIC\t{}\t{}\tair-lower-stage\t{}", case, mode, esc(&m)),
+            }
         }
         let has_generics = pre.functions.iter().any(|f| !f.type_params.is_empty());
         if has_generics {
